@@ -126,16 +126,37 @@ pub fn pin_one(p: &Path) -> io::Result<()> {
 /// pin the mtime of every entry (children before parents does not matter: utimensat on a
 /// child does not touch the parent's mtime)
 pub fn pin_all(root: &Path) -> io::Result<()> {
-    fn rec(p: &Path) -> io::Result<()> {
+    pin_all_future(root, None)
+}
+
+/// `future`: a third of the regular files (chosen by a hash of their path and this value) get a
+/// modification time in 2039 - files unpacked or synchronised from a machine whose clock runs
+/// ahead, a restored VM. Whether a file is formatted must not depend on how its mtime compares
+/// with "now".
+pub fn pin_all_future(root: &Path, future: Option<u64>) -> io::Result<()> {
+    fn rec(root: &Path, p: &Path, future: Option<u64>) -> io::Result<()> {
         let m = fs::symlink_metadata(p)?;
         if m.is_dir() {
             for e in fs::read_dir(p)? {
-                rec(&e?.path())?;
+                rec(root, &e?.path(), future)?;
+            }
+        }
+        if let (Some(f), true) = (future, m.is_file()) {
+            let h = crate::rng::fnv(p.strip_prefix(root).unwrap_or(p).as_os_str().as_bytes()) ^ f;
+            if h % 3 == 0 {
+                let c = CString::new(p.as_os_str().as_bytes()).unwrap();
+                let t = libc::timespec { tv_sec: 2_200_000_000 + (h % 100_000) as i64, tv_nsec: 0 };
+                let ts = [t, t];
+                let r = unsafe { libc::utimensat(libc::AT_FDCWD, c.as_ptr(), ts.as_ptr(), libc::AT_SYMLINK_NOFOLLOW) };
+                if r != 0 {
+                    return Err(io::Error::last_os_error());
+                }
+                return Ok(());
             }
         }
         pin_one(p)
     }
-    rec(root)
+    rec(root, root, future)
 }
 
 pub fn snapshot(root: &Path) -> io::Result<Snapshot> {
